@@ -235,4 +235,12 @@ def run(P, R, tier):
     c19.comparators(P, R, 'C10.SET.ARITH')
     # a request whose flag word is combined with a set of another kind can never satisfy the gate and is never retired
     rules.bitset_domains(P, R, 'C10.TAB.1')
+    # every verdict retires the request it is about (a killed client does not wait for the server's D)
+    from . import c01
+    from ..report import Remap as _Remap
+    V, softfns = c01.fmt_rules(P, _Remap(R, {}))
+    c01.verdict_discipline(P, _Remap(R, {'C01.MPT.1': 'C10.MPT.2'}), V)
+    # the table key and the element count hold every id / every number of requests
+    rules.narrowing_fields(P, R, 'C10.WID.1', ('modules/iauth_core.c', 'modules/iauth_xquery.c', 'src/set.c'))
+    rules.counter_widths(P, R, 'C10.WID.2', recs=('set', 'iauth_request', 'iauth_xquery_service'))
     return EXPLANATION, ASSUMPTIONS
